@@ -65,6 +65,11 @@ def run(chk, F, tier):
 def run_all(chk, fsets, tier):
     import facts
     chk.extra["programs"] = 0
+    # table decoding peeks past the end of short streams: what it assumes about a failed or zero-extended look-ahead
+    import deps
+    F0 = facts.load(fsets[0])
+    deps.end_of_stream(chk, F0, tier, ("E3.order",), "T5.lookahead", "a failed look-ahead fetch leaves the reader as it was, so the bit-by-bit fallback starts from the same state (C09)")
+    deps.backends(chk, F0, tier, ("K.read_word",), "T5.lookahead", "the zero-extended source counts the words it synthesises, so positions agree with the bit-by-bit path (C13)")
     for i, fs in enumerate(fsets):
         F = facts.load(fs)
         if i == 0:
